@@ -320,6 +320,7 @@ class C17:
                     recipe["flags"] = {**recipe["flags"], f: not recipe["flags"][f]}
             else:
                 recipe = G.gen_recipe(rng)
+                recipe["autoescape"] = rng.chance(0.4)
             pnames = rng.sample(["p", "d/q.liquid", "r.html"], rng.randint(1, 3))
             templates = {}
             for i, nm in enumerate(pnames):
@@ -335,8 +336,8 @@ class C17:
                 mains.append(tg.template())
             if rng.chance(0.6):
                 mains.append(DATE_MAIN)
-            if rng.chance(0.5):
-                mains.append(rng.choice(FILTER_MAINS))
+            if rng.chance(0.6):
+                mains.extend(FILTER_MAINS)
             envs.append({"recipe": recipe, "loader": rng.choice(["dict", "cdict", "sim", "csim", "choice", "cchoice"]),
                          "ns_key": "", "capacity": rng.choice([1, 2, 300]), "auto_reload": rng.chance(0.7),
                          "templates": templates, "mains": mains})
@@ -382,6 +383,22 @@ class C17:
             return op
 
         clients = [{"id": c, "ops": [gen_op() for _ in range(rng.randint(2, 9))]} for c in range(rng.randint(1, 4))]
+        # equal-but-differently-typed pairs back to back: a render is followed (not necessarily
+        # immediately) by the same template with the twin of its data
+        twin_of = {}
+        for j, d in enumerate(datas):
+            if d.get("twin"):
+                twin_of[j - 1] = j
+                twin_of[j] = j - 1
+        for c in clients:
+            extra = []
+            for op in c["ops"]:
+                extra.append(op)
+                if op["op"] == "render" and op["data"] in twin_of and rng.chance(0.35):
+                    uid[0] += 1
+                    extra.append({**{k: v for k, v in op.items() if k != "cancel_after"}, "uid": uid[0],
+                                  "data": twin_of[op["data"]], "mode": rng.choice(["sync", "async"])})
+            c["ops"] = extra
         return {"envs": envs, "datas": datas, "clients": clients, "sched_seed": rng.randrange(1 << 30),
                 "pristine_p": 0.15, "pristine_max": 3,
                 "lat": {"max": 0.01, "zero_p": rng.choice([0.1, 0.4]), "stall_p": 0.0}}
